@@ -440,7 +440,6 @@ def load(val: _T) -> PythonValueT | _T:
     return strload(val) if inspection.istexttype(val.__class__) else val  # type: ignore[arg-type]
 
 
-@compat.lru_cache(maxsize=100_000)
 def strload(val: str | bytes | bytearray | memoryview) -> PythonValueT:
     """Attempt to decode a string-like input into a Python value.
 
@@ -463,11 +462,22 @@ def strload(val: str | bytes | bytearray | memoryview) -> PythonValueT:
     Args:
         val: The string-like input to be decoded.
     """
+    # `bytearray` and writable `memoryview` objects can't be hashed for the cache.
+    if isinstance(val, (bytearray, memoryview)):
+        val = bytes(val)
+    return _strload(val)
+
+
+@compat.lru_cache(maxsize=100_000)
+def _strload(val: str | bytes) -> PythonValueT:
     with contextlib.suppress(ValueError):
         return compat.json.loads(val)
 
     decoded = decode(val)
-    with contextlib.suppress(ValueError, TypeError, SyntaxError):
+    # Text which the parser chokes on isn't a literal - that's not an error.
+    with contextlib.suppress(
+        ValueError, TypeError, SyntaxError, MemoryError, RecursionError
+    ):
         return ast.literal_eval(decoded)
 
     return decoded
